@@ -1296,6 +1296,11 @@ class FnTranslator:
             if not isinstance(t, TSeq):
                 self.err("`.%s()` on %r" % (nm, t), e)
             return r, t                  # a slice read as the iterator over its elements (len(), enumerate(), a call) (genpm)
+        if nm == "rev" and not e.args:
+            r, t = self.expr(e.recv, code, expected)
+            if not isinstance(t, TSeq):
+                self.err("`.rev()` on %r" % (t,), e)
+            return "%s.reverse" % atom(r), t               # a slice's iterator, reversed, as an argument (genpm)
         if nm == "enumerate" and not e.args:
             r, t = self.expr(e.recv, code)
             if not isinstance(t, TSeq):
@@ -2584,6 +2589,30 @@ unit(name="SrcHorspoolNext", props="property C08", file="src/pattern_matching/ho
                      # both loops advance `last` by a table entry (>= 1 for the table `Horspool::new` builds) per round
                      fuel=["n - last + 1", "n - last + 1"],
                      params=[], ret="Option<usize>", theorem="RbV.Thm.GenSrcHorspoolNext.next_eq_model")])
+
+
+unit(name="SrcBndmNext", props="property C08", file="src/pattern_matching/bndm.rs",
+     imports=["RbV.Gen.SrcShiftAndMasks"], aliases={"TextSlice": "&[u8]"},
+     functions=[dict(name="BNDM::new", lean="new",
+                     header="pub fn new<C, P>(pattern: P) -> Self where C: Borrow<u8>, P: IntoIterator<Item = C>, "
+                            "P::IntoIter: DoubleEndedIterator + ExactSizeIterator,",
+                     params=[("pattern", "&[u8]")], ret="(usize, [u64; 256], u64)",
+                     struct_fields={"BNDM": ["m", "masks", "accept"]},
+                     calls={"masks": dict(lean="RbV.Gen.SrcShiftAndMasks.masks", args=["&[u8]"], ret="([u64; 256], u64)")},
+                     theorem="RbV.Thm.GenSrcBndmNext.new_eq_model"),
+                dict(name="BNDM::find_all", lean="findAll",
+                     header="pub fn find_all<'a>(&'a self, text: TextSlice<'a>) -> Matches<'_>",
+                     self_fields=[("m", "usize")], params=[("text", "TextSlice")], ret="(usize, TextSlice)",
+                     struct_fields={"Matches": [("window", "usize"), ("text", "TextSlice")]},
+                     theorem="RbV.Thm.GenSrcBndmNext.findAll_init"),
+                dict(name="Matches::next", lean="next", header="fn next(&mut self) -> Option<usize>",
+                     self_fields=[("bndm.m", "usize"), ("bndm.masks", "[u64; 256]"), ("bndm.accept", "u64"),
+                                  ("window", "usize"), ("text", "TextSlice")],
+                     locals={"occ": "Option<usize>", "j": "usize", "lastsuffix": "usize"},
+                     # outer loop: the window moves right by at least 1 per round; inner loop: `active <<= 1` on m bits, one more
+                     # unit than the model's fuel for the final test of the condition
+                     fuel=["text.length - window + 2", "m + 2"],
+                     params=[], ret="Option<usize>", theorem="RbV.Thm.GenSrcBndmNext.next_eq_model")])
 
 
 # ================================================================================================== self-test
